@@ -417,7 +417,7 @@ func (s *Sim) opSend(pl sendPlan) string {
 	recv := s.Ch[dst].Addr(s.R.Intn(users)).String()
 	cls := "send-" + l.Kind
 	// sometimes use a pair that is whitelisted on the source or the destination
-	if s.R.Intn(100) < 20 {
+	if s.R.Intn(100) < 35 {
 		for _, wc := range []int{src, dst} {
 			for _, w := range sortedKeys(s.M[wc].White) {
 				parts := strings.SplitN(w, "\x00", 2)
@@ -540,14 +540,35 @@ func v1Form(p *TPkt) channeltypes.Packet {
 // settled (a second timeout / error acknowledgement, an error acknowledgement after a success, a second undo of a
 // receive): "each packet undone at most once".
 func (s *Sim) opDupUndo() string {
-	p := s.pick(func(p *TPkt) bool { return p.Terminal != "" || (p.Received && !p.AsyncOpen && p.RecvResult != "error") })
+	// prefer packets that were refunded inside a window that is still running (the replay then meets live flows)
+	live := func(chain int, k ratelimit.Key, d ratelimit.Dir, seq uint64) bool {
+		r, l := s.M[chain].Rec(k, d, seq), s.M[chain].Limits[k]
+		return r != nil && l != nil && r.State == "undone" && r.Window == l.Window && !l.Tainted
+	}
+	p := s.pick(func(p *TPkt) bool {
+		return (p.Terminal == "timeout" || p.Terminal == "ack-err") && live(p.src(), s.sendKey(p), ratelimit.Send, p.Seq)
+	})
+	if p != nil && s.R.Intn(4) > 0 {
+		return s.dupUndo(p, true)
+	}
+	p = s.pick(func(p *TPkt) bool {
+		return p.Received && !p.AsyncOpen && p.RecvResult == "async" && live(p.dst(), s.recvKey(p), ratelimit.Recv, p.Seq)
+	})
+	if p != nil && s.R.Intn(4) > 0 {
+		return s.dupUndo(p, false)
+	}
+	p = s.pick(func(p *TPkt) bool { return p.Terminal != "" || (p.Received && !p.AsyncOpen && p.RecvResult != "error") })
 	if p == nil {
 		return ""
 	}
+	return s.dupUndo(p, p.Terminal != "" && (s.R.Bool() || !p.Received))
+}
+
+func (s *Sim) dupUndo(p *TPkt, sendSide bool) string {
 	errAck := channeltypes.NewErrorAcknowledgement(fmt.Errorf("replayed")).Acknowledgement()
 	pk := v1Form(p)
 	s.evs = s.evs[:0]
-	if p.Terminal != "" && (s.R.Bool() || !p.Received) {
+	if sendSide {
 		chain := p.src()
 		s.catchUp(chain)
 		ch := s.Ch[chain]
@@ -715,6 +736,9 @@ func (s *Sim) Step(pr Profile) string {
 			}
 			s.Advance(p)
 			o := s.Timeout(p)
+			if o != nil && o.OK() && p.Terminal == "timeout" && s.R.Intn(5) == 0 {
+				s.dupUndo(p, true) // the same timeout reaches the limiter a second time
+			}
 			cls := "timeout-" + okS(o)
 			if p.Hop {
 				cls += "-hop"
